@@ -136,7 +136,9 @@ SRC_SPECS.append(
 RULE =('real TransmissionModel, 2-25 layers, 1-5 wavenumbers, 2-4 trace gases (constant/array profiles), CIA pairs '
         'H2-H2, H2-He, H2-<trace gas>, contributions drawn from {Absorption, CIA, Rayleigh, SimpleClouds, FlatMie | '
         'LeeMie, HydrogenIon} (at least two) in shuffled insertion order, opacity regime thin/mid/thick; every 3rd case '
-        'has a trace gas (first/middle/last) at EXACTLY zero abundance (constant, some layers, all layers). distinct '
+        'has a trace gas (first/middle/last) at EXACTLY zero abundance (constant, some layers, all layers); every case '
+        'carries a route history (parameters of a contribution / a gas changed through the fitting-parameter setters '
+        'after a run, or a never-run model; then model_full_contrib / model_contrib / model in varying order). distinct '
         'non-trivial = distinct (contribution multiset, layers, regime) with a transmittance strictly between 0 and 1')
 ASSUMPTIONS = ['per-species cross-sections opacity(T_l, P_l, wn), cia(T_l, wn) and the Rayleigh / H- laws are taken from '
                'the real cache objects (C04 models the interpolation); their abundance weighting and summation is modelled',
@@ -268,7 +270,45 @@ def gen_case(rng, k):
                 cs.append(lee)
     spec['contributions'] = [cs[i] for i in rng.permutation(len(cs))]
     spec['alt_order'] = [int(i) for i in rng.permutation(len(cs))]
+    spec['route_history'] = gen_route_history(rng, spec)
     return spec
+
+
+OWN_PARAMS = {'clouds': ['clouds_pressure'], 'flatmie': ['flat_mix_ratio', 'flat_topP', 'flat_bottomP'],
+              'leemie': ['lee_mie_mix_ratio', 'lee_mie_radius', 'lee_mie_q', 'lee_mie_topP', 'lee_mie_bottomP']}
+ROUTE_ORDERS = ['components-first', 'components-first', 'contributions-first', 'model-first']
+
+
+def gen_route_history(rng, spec):
+    """an object history for the three evaluation routes: the model has been run, then parameters are changed through
+    the fitting-parameter interface (a contribution's OWN parameter - cloud deck, haze abundance / particle size /
+    pressure range - whenever the model has one, and/or a constant trace-gas abundance), then model_full_contrib(),
+    model_contrib() and model() are called in the order `order`.  `never_run`: the routes are called on a freshly built
+    model that was never evaluated (no parameter change)."""
+    step = {}
+    own = [(c, nm) for c in spec['contributions'] for nm in OWN_PARAMS.get(c['type'], [])]
+    if own:
+        for i in rng.choice(len(own), size=min(len(own), int(rng.integers(1, 3))), replace=False):
+            c, nm = own[int(i)]
+            v = c[nm]
+            if nm == 'clouds_pressure':
+                v = float(v * 10 ** rng.uniform(-1, 1))
+            elif nm in ('flat_mix_ratio', 'lee_mie_mix_ratio'):
+                v = float(v * 10 ** rng.uniform(-1.5, 1.5))
+            elif nm in ('lee_mie_radius', 'lee_mie_q'):
+                v = float(v * rng.uniform(0.4, 2.5))
+            elif nm.endswith('topP'):
+                v = float(spec['pmin'] * 10 ** rng.uniform(0, 2)) if rng.random() < 0.8 else -1
+            else:
+                v = float(spec['pmax'] * 10 ** rng.uniform(-2, 0)) if rng.random() < 0.8 else -1
+            step[nm] = v
+    cons = [g for g in spec['gases'] if g.get('type', 'constant') == 'constant' and g['mol'] not in ('H', 'e-')
+            and g['mix'] > 0]
+    if cons and (not step or rng.random() < 0.5):
+        g = cons[int(rng.integers(0, len(cons)))]
+        step[g['mol']] = float(min(g['mix'] * 10 ** rng.uniform(-1, 1), 0.05))
+    return dict(step=step, order=ROUTE_ORDERS[int(rng.integers(0, len(ROUTE_ORDERS)))],
+                never_run=bool(rng.random() < 0.15))
 
 
 def small(spec):
@@ -452,6 +492,9 @@ def eval_case(ctx, spec, extras=True):
     zero_gas_checks(ctx, spec, m, wn, trans, depth)
     if extras:
         extra_checks(ctx, spec, m, wn, trans, depth, names)
+    # (thorough tier: every second case - the history costs one more model build and three more routes per case)
+    if spec.get('route_history') and not collision and (ctx.quick or ctx.evaluations % 2 == 0):
+        route_history(ctx, spec, m)
     mixed = bool(np.any((trans > 1e-6) & (trans < 1 - 1e-9)))
     ctx.case(key=(tuple(sorted(c['type'] for c in spec['contributions'])), n, spec.get('regime')) if mixed else None,
              sample=dict(sm, trans=trans[:2, 0], product=mprod[:2, 0]), bucket='regime:' + str(spec.get('regime')))
@@ -567,6 +610,165 @@ def extra_checks(ctx, spec, m, wn, trans, depth, names):
             ctx.bucket('proportionality-rerun')
         except Exception as e:
             ctx.violation('raises-scaled-abundance:' + type(e).__name__, 'model with a scaled abundance raised %r' % (e,), spec)
+
+
+def run_routes(m, order):
+    """the three public evaluation routes on the model object as it is, in the given order"""
+    out = {}
+    calls = dict(components=lambda: m.model_full_contrib()[1], contributions=lambda: m.model_contrib()[1],
+                 model=lambda: m.model())
+    seq = {'components-first': ['components', 'contributions', 'model'],
+           'contributions-first': ['contributions', 'components', 'model'],
+           'model-first': ['model', 'components', 'contributions']}[order]
+    for r in seq:
+        out[r] = calls[r]()
+    return out
+
+
+def route_history(ctx, spec, m):
+    """HISTORY quota.  One model object that has been run; parameters are then changed through the fitting-parameter
+    interface and the three routes are called (per-component route first in half of the cases).  Every route must reflect
+    the NEW values: each contribution / component transmittance is compared with the Lean transmittance of the weighted
+    opacity a freshly built model prepares for the new values (mismatch), then the property's own identities are judged on
+    the real code (contribution = product over its components, model = product over its contributions, each component
+    equal to the freshly built model's)."""
+    h = spec['route_history']
+    sm = dict(small(spec), route_history=h)
+    case = spec
+    never = bool(h.get('never_run'))
+    # TODO(finding, reported to the coordinator; remove when /repo is repaired): SimpleCloudsContribution.prepare_each stores
+    # its deck in `self._contrib` while `contribute` reads `self.sigma_xsec` (only `prepare` assigns it), so the 'Clouds'
+    # component of model_full_contrib() is the deck of the LAST prepare(): stale after a change of clouds_pressure or of the
+    # pressure grid.  That component is kept out of the judged stream and counted.
+    # A model that was NEVER evaluated: the per-component route needs attributes only prepare() sets (Absorption `_nlayers`,
+    # HydrogenIon `_ngrid`, SimpleClouds `sigma_xsec`) and raises; no transmittance is returned that the property could
+    # speak about -> malformed stream.  When the routes do run, they are judged like any other history.
+    try:
+        if never:
+            mr = FM.build_model(spec)                  # built, never evaluated
+            spec2 = spec
+        else:
+            FM.spec_install(spec)
+            mr = m
+            mr.model()                                 # the last run saw the OLD values
+            spec2 = T.apply_step(spec, mr, h['step'])
+        got = run_routes(mr, h['order'])
+        p = FM.profiles(mr)
+        paths = [np.asarray(r, float) for r in mr.path_length]
+        before = list(mr.contribution_list)
+    except Exception as e:
+        if _invalid_params(ctx, e):
+            return
+        if never:
+            ctx.malformed_outcome('never-evaluated-model:routes-%s:%s' % (h['order'], type(e).__name__))
+            return
+        ctx.violation('stale-state:routes-raise:' + type(e).__name__, 'model_full_contrib / model_contrib / model raised '
+                      '%r after parameter setters' % (e,), case, dict(route_history=h))
+        return
+    try:
+        mf, wn, depth_f, trans_f, pf, contribs_f = T.run_real(spec2)
+        comps_f = []
+        for cf in mf.contribution_list:
+            comps_f.append([(str(nm), np.array(sg, float)) for nm, sg in cf.prepare_each(mf, wn)])
+            cf.prepare(mf, wn)
+    except Exception as e:
+        if _invalid_params(ctx, e):
+            return
+        ctx.violation('raises-fresh-after-setters:' + type(e).__name__, 'a freshly built model with the new values raised '
+                      '%r' % (e,), case, dict(route_history=h))
+        return
+    finally:
+        if not never:
+            try:                                       # put the shared model object back
+                FM.spec_install(spec)
+                for name in h['step']:
+                    for g in spec['gases']:
+                        if g['mol'] == name:
+                            m[name] = g['mix']
+                    for c in spec['contributions']:
+                        if name in c:
+                            m[name] = c[name]
+                m.model()
+            except Exception:  # noqa
+                pass
+    ctx.bucket('route-history:' + ('never-run' if never else 'after-setters') + ':' + h['order'])
+    for name in ([] if never else h['step']):
+        ctx.bucket('route-history:changed:' + (name if name in sum(OWN_PARAMS.values(), []) else 'gas-abundance'))
+    wn_r, depth, trans, _ = got['model']
+    trans = np.asarray(trans, float)
+    cdict, fdict = got['contributions'], got['components']
+    n, nwn = p['nlayers'], len(wn)
+    new = bool(spec['new_path_method'])
+    head = [C.N(1 if new else 0), C.F(p['rp']), C.F(p['rs']), C.L(p['z']), C.L(p['dz']), C.L(p['zb']), C.L(p['density']),
+            C.N(nwn)]
+    enc = lambda ks: C.N(ks[0]) + ' ' + C.LL(ks[1].tolist())
+
+    def lean_trans(kind, sig):
+        d = ctx.model().call('c01.spectrum', *head, C.L([(kind, sig)], enc))
+        return np.array(d.list(lambda: d.list())).reshape(n, nwn)       # transmittance of this opacity alone
+    names = [c.name for c in before]
+    if [c.name for c in mf.contribution_list] != names or trans.shape != trans_f.shape:
+        ctx.violation('stale-state:structure', 'contribution names / shapes differ from a freshly built model', case,
+                      dict(route_history=h, reused=names, fresh=[c.name for c in mf.contribution_list]))
+        return
+    for i, cobj in enumerate(before):
+        nm = cobj.name
+        kind = contribs_f[i][0]
+        # ---- correspondence: the reused object's routes vs the Lean transmittance of the opacity prepared for the NEW values
+        one = np.asarray(cdict[nm][1], float) if nm in cdict else None
+        comps = fdict.get(nm)
+        if type(cobj).__name__ == 'SimpleCloudsContribution':
+            ctx.bucket('TODO-finding:SimpleClouds-component-not-published:component-not-judged')
+            comps = []
+        ctx.disagreements_checked += 1
+        if one is None or not T.trans_close(one, lean_trans(kind, contribs_f[i][1]), rel=1e-8):
+            ctx.mismatch('model_contrib()[%s] of a model with a history vs Transmission.modelTrans on the new values' % nm,
+                         dict(case, small=sm), dict(impl=None if one is None else one[:3]))
+        if comps is not None and [str(cn) for cn, _, _, _ in comps] == [cn for cn, _ in comps_f[i]]:
+            for (cn, ab, tt, _), (_, sg) in zip(comps, comps_f[i]):
+                ctx.disagreements_checked += 1
+                if not T.trans_close(np.asarray(tt, float), lean_trans(kind, sg), rel=1e-8):
+                    ctx.mismatch('model_full_contrib()[%s][%s] of a model with a history vs Transmission.modelTrans on '
+                                 'the new values' % (nm, cn), dict(case, small=sm), dict(impl=np.asarray(tt)[:3]))
+        # ---- the property's identities on the real code
+        if one is None or comps is None:
+            ctx.violation('stale-state:route-entry-missing:' + nm, 'a route has no entry for the contribution', case,
+                          dict(route_history=h))
+            continue
+        if comps:
+            cp = np.ones_like(trans)
+            for (cn, ab, tt, _) in comps:
+                cp = cp * np.asarray(tt, float)
+            if not T.trans_close(one, cp, rel=1e-8):
+                ctx.violation('stale-state:component-identity:' + nm, 'contribution transmittance != product over its '
+                              'components %s' % ('on a never-run model' if never else 'after a parameter change'), case,
+                              dict(route_history=h, contribution=one[:3], product=cp[:3]))
+        fresh_names = [cn for cn, _ in comps_f[i]] if type(cobj).__name__ != 'SimpleCloudsContribution' else []
+        if [str(cn) for cn, _, _, _ in comps] != fresh_names:
+            ctx.violation('stale-state:component-names:' + nm, 'components differ from a freshly built model', case,
+                          dict(route_history=h, reused=[str(c[0]) for c in comps], fresh=fresh_names))
+            continue
+        with np.errstate(over='ignore'):
+            for (cn, ab, tt, _), (_, sg) in zip(comps, comps_f[i]):
+                want = np.exp(-T.tau_full(paths, p['density'], [(kind, sg)]))
+                if not T.trans_close(np.asarray(tt, float), want, rel=1e-8):
+                    ctx.violation('stale-state:component-differs-from-fresh:' + nm, 'a component of model_full_contrib() '
+                                  'is not exp(-sum sigma x density x chord) of the opacity a freshly built model prepares '
+                                  'for the current parameter values', case,
+                                  dict(route_history=h, component=str(cn), impl=np.asarray(tt)[:3], expected=want[:3]))
+                    break
+    prod = np.ones_like(trans)
+    for nm in names:
+        if nm in cdict:
+            prod = prod * np.asarray(cdict[nm][1], float)
+    bad = licensed_rows(trans, prod)
+    if bad is not None:
+        ctx.violation('stale-state:product-identity', 'model transmittance != product of the per-contribution '
+                      'transmittances (beyond the tau>10 licence) for a model with a history', case,
+                      dict(route_history=h, layer=bad, model=trans[bad], product=prod[bad]))
+    if sym_rows(trans, trans_f) is not None:
+        ctx.violation('stale-state:differs-from-fresh', 'model() of a model with a history differs from a freshly built '
+                      'model with the same values', case, dict(route_history=h, reused=trans[:3], fresh=trans_f[:3]))
 
 
 def without_gas(spec, mol):
